@@ -46,7 +46,7 @@ Inductive tok_step (m : msg) (s s' : state) : Prop :=
     contract_step s s' (t_symbol t) 0 (t_contract t) -> tok_step m s s'.
 
 Lemma bank_only_next s s' : bank_only s s' -> nc s' = nc s.
-Proof. intros (B & S & ->). reflexivity. Qed.
+Proof. intros (B & S & -> & _ & _). reflexivity. Qed.
 
 Lemma upsert_fields s t :
   tokens (upsert_token s t) = set (t_symbol t) t (tokens s)
@@ -190,6 +190,9 @@ Proof.
   exists sym, t, x. repeat split; assumption.
 Qed.
 
+Lemma do_upgrade_inv s auth s' : do_upgrade s auth = ROk s' -> s' = s.
+Proof. unfold do_upgrade. intros H. inv_if H. inv_if H. inv_if H. inv_if H. inversion H. reflexivity. Qed.
+
 (** ** how each message changes the registry *)
 Lemma bank_only_tok_same m s s' : bank_only s s' -> tok_step m s s'.
 Proof. intros H. pose proof (bank_only_next _ _ H). apply bank_only_fields in H. destruct H as (Ht & Hm & _). apply TSsame; assumption. Qed.
@@ -307,6 +310,8 @@ Proof.
     apply bank_mint_only, bank_only_fields in Hm. destruct Hm as (Ht1 & Hm1 & _).
     apply bank_pay_only, bank_only_fields in Hp. destruct Hp as (Ht2 & Hm2 & _).
     apply TSsame; simpl in *; congruence.
+  - (* UpgradeErc20 *)
+    apply do_upgrade_inv in H. subst s'. apply TSsame; reflexivity.
 Qed.
 
 (** ** the registry invariant is preserved by every message *)
@@ -618,6 +623,8 @@ Proof.
     unfold do_set_params in H. inv_if H. inversion H. split; assumption.
   - (* EvmMode *)
     inversion H. split; assumption.
+  - (* UpgradeErc20 *)
+    apply do_upgrade_inv in H. subst s'. split; assumption.
 Qed.
 
 Record CapInv (s : state) : Prop := { cap_id : IdInv s; cap_reg : SupReg s; cap_ok : CapOK s }.
@@ -734,6 +741,7 @@ Proof.
   - inversion E. reflexivity.
   - apply do_hook_inv in E. destruct E as (sym0 & t & s2 & _ & _ & _ & _ & _ & _ & Hm & Hp).
     rewrite (burned_of_bank_only _ _ d (bank_pay_only _ _ _ _ _ Hp)), (burned_of_bank_only _ _ d (bank_mint_only _ _ _ _ Hm)). reflexivity.
+  - apply do_upgrade_inv in E. subst s'. reflexivity.
 Qed.
 
 Lemma run_burned ms : forall s d, IdInv s -> burned_of (run s ms) d = burned_of s d + burnt_in s ms d.
